@@ -106,6 +106,11 @@ def gen_cases(r: Run):
               # threshold 0 on compositions whose heaviest isotopologues are far below one ulp of the total
               ("H:0=5", Fraction(0)), ("H:0=8", Fraction(0)), ("C:0=8", Fraction(0)), ("N:0=8", Fraction(0)),
               ("C:0=2,H:0=6,O:0=1", Fraction(0)), ("H:0=9,N:0=1", Fraction(0)), ("Br:0=1", Fraction(6, 10)), ("Ac:0=3", Fraction(0))]
+    # an entry with count 0 in every position of three- and four-entry compositions (an explicit zero is neutral wherever
+    # it stands; scratch buffers carried from one entry to the next must not leak into it)
+    corpus += [("C:0=2,H:0=3,O:0=0", Fraction(0)), ("C:0=2,O:0=0,H:0=3", Fraction(0)), ("O:0=0,C:0=2,H:0=3", Fraction(0)),
+               ("C:0=1,H:0=2,N:0=1,S:0=0", Fraction(0)), ("C:0=1,H:0=2,S:0=0,N:0=1", Fraction(1, 10 ** 6)),
+               ("Cl:0=2,Br:0=1,S:0=0", Fraction(1, 100)), ("Cl:0=2,S:0=0,Br:0=1,O:0=0", Fraction(0))]
     for pairs, t in corpus:
         for form in ("vec", "map"):
             cases.append((pairs, t, form))
